@@ -44,6 +44,7 @@ import (
 	iresolver "google.golang.org/grpc/internal/resolver"
 	istats "google.golang.org/grpc/internal/stats"
 	"google.golang.org/grpc/internal/transport"
+	"google.golang.org/grpc/internal/verifhook"
 	"google.golang.org/grpc/keepalive"
 	"google.golang.org/grpc/resolver"
 	"google.golang.org/grpc/serviceconfig"
@@ -604,6 +605,7 @@ type connectivityStateManager struct {
 // If there's a change it notifies goroutines waiting on state change to
 // happen.
 func (csm *connectivityStateManager) updateState(state connectivity.State) {
+	verifhook.Point("csm.updateState.begin")
 	csm.mu.Lock()
 	defer csm.mu.Unlock()
 	if csm.state == connectivity.Shutdown {
@@ -625,12 +627,14 @@ func (csm *connectivityStateManager) updateState(state connectivity.State) {
 }
 
 func (csm *connectivityStateManager) getState() connectivity.State {
+	verifhook.Point("csm.getState.begin")
 	csm.mu.Lock()
 	defer csm.mu.Unlock()
 	return csm.state
 }
 
 func (csm *connectivityStateManager) getNotifyChan() <-chan struct{} {
+	verifhook.Point("csm.getNotifyChan.begin")
 	csm.mu.Lock()
 	defer csm.mu.Unlock()
 	if csm.notifyChan == nil {
